@@ -69,8 +69,10 @@ def printE (m : Bool) : Expr → (level : Nat) → (forbidIn isNewTarget : Bool)
        else printE m v (lvl "LPostfix" - 1) false false (start.after wrap) false ++ [Tok.ofText entry.text])
   | .binary op l r, level, forbidIn, _, start, _ =>
     let (wrap0, leftLevel, rightLevel) := binaryLevels op l r level forbidIn
-    -- "Destructuring assignments must be parenthesized": any binary whose left operand is an object literal
-    let wrap := wrap0 || (start.stmt && isObjAtom l)
+    -- "Destructuring assignments must be parenthesized": any binary whose left operand is an object literal,
+    -- except the comma operator (fix d18681d: there the object literal wraps itself, so that the output does
+    -- not depend on how the comma expression is nested)
+    let wrap := wrap0 || (start.stmt && isObjAtom l && op != .comma)
     let fi := forbidIn && !wrap
     paren wrap (printE m l leftLevel fi false (start.after wrap) false ++
       Tok.ofText (binEntry op).text :: printE m r rightLevel fi false .no false)
